@@ -48,6 +48,9 @@ type Target struct {
 	// UnExportedMocker (README: ExportFunc(n).Apply / ExportMethod(n).Apply / ExportStruct(s).Method(n).Apply):
 	// goom has no type information on that path, so ill-typed callbacks cannot be rejected there.
 	ByName func(how int) bool
+	// ApplyOnly reports whether lookup path how supports callbacks only (a method VALUE handed to
+	// Func: stubs would be built from the receiver-less type of the value).
+	ApplyOnly func(how int) bool
 }
 
 // ueAdapter drives an UnExportedMocker through the ExportedMocker interface the interpreter uses:
@@ -264,14 +267,21 @@ func initMethods() {
 			t.NumHow = 2
 			if m.Generic {
 				t.NumHow = 1
+			} else if m.MV != nil {
+				t.NumHow = 3
 			}
 			t.Lookup = func(b *mocker.Builder, how int) mocker.ExportedMocker {
-				if how == 1 {
+				switch how {
+				case 1:
 					return b.Func(m.Expr)
+				case 2:
+					return b.Func(m.MV) // method value: resolved by cutting "-fm" off the wrapper's symbol name
 				}
 				return b.Struct(m.Inst).Method(m.Name)
 			}
 			t.SkipRecv = func(how int) bool { return how == 0 }
+			t.ByName = func(how int) bool { return how == 2 }
+			t.ApplyOnly = func(how int) bool { return how == 2 }
 		case "export":
 			t.NumHow = 2
 			t.Lookup = func(b *mocker.Builder, how int) mocker.ExportedMocker {
